@@ -56,7 +56,10 @@ impl Line {
         }
         let mut s: String = self.tokens.iter().map(|s| s.to_string()).collect();
         while let Some((col, num)) = visitor.replace.pop() {
-            s.replace_range(col, &format!("{}", num));
+            // columns count characters; replace_range wants byte offsets
+            let byte_at = |pos: usize| s.char_indices().nth(pos).map_or(s.len(), |(idx, _)| idx);
+            let range = byte_at(col.start)..byte_at(col.end);
+            s.replace_range(range, &format!("{}", num));
         }
         let (_, tokens) = lex(&s);
         Line { number, tokens }
